@@ -12,7 +12,7 @@ import (
 
 func init() {
 	register(&propDef{
-		ID: "C19",
+		ID:          "C19",
 		Explanation: "Decides, for package cmd/templ/generatecmd/sse (every function, go/cfg + type information): R1 no send on a registry channel can follow its close — either the channel type stored in the client registry is never closed and every send on it is one arm of a select whose other arm receives a done signal, or send and close both hold the registry mutex in the same goroutine (a send inside a `go` closure does not hold the caller's lock); R2 while the broadcaster holds the registry mutex it performs no blocking channel operation itself; R3 registration stores under the mutex and removal is deferred, under the mutex; R4 the broadcast loop addresses every registered client (no break/continue/return filter). NOT decided: delivery under all interleavings, liveness of slow readers.",
 		Assumptions: []string{"a send on a closed channel panics; a send in a select with a ready done arm cannot block forever", "net/http cancels r.Context() when ServeHTTP returns"},
 		Trusted:     []string{"go/types", "x/tools go/packages, go/cfg"},
